@@ -138,6 +138,9 @@ class C01(Prop):
         rng = ctx.rng
         quick = ctx.tier == "quick"
         files = G.load_testfiles(ctx.src)
+        if not any(files.get(d) for d in ("stockholm", "afa", "selex")):      # scratch copy pruned by a concurrent build: read the repo itself
+            from vlib import engine as _engine
+            files = G.load_testfiles(_engine.REPO)
         allfiles = [b for v in files.values() for _, b in v]
         out = []
         stats = ctx.stats.setdefault("generator", {"kinds": {}, "formats": {}, "abc": {}, "sources": {}, "bytes_total": 0, "max_len": 0})
